@@ -137,6 +137,29 @@ def step (st : St) (j : Json) : St × Json :=
       if om.compress == os.compress then (st', om)
       else (st', om.setObjVal! "spec" os |>.setObjVal! "kf" "C18-model-spec-gap")
     | _, _, _ => (st, Drv.bad "close: ids/eids/labels")
+  | some "bulkidx" =>
+    -- kvgraph with a user index (label, field): a vertex of that label whose field holds a value that
+    -- is no index term (not a string, not a number) is refused, by the bulk load and by the single
+    -- add alike; every other vertex is stored (sampled correspondence: user indexes are outside the
+    -- proved model)
+    match strs? j "index", arr? j "verts" with
+    | some [lab, fld], some vs =>
+      let storable (v : Json) : Bool :=
+        match str? v "label", jv? v "data" with
+        | some l, some d =>
+          if l != lab then true else
+          match d.getKey? fld with
+          | none => true
+          | some (.str _) => true
+          | some (.num _) => true
+          | some .null => true
+          | some _ => false
+        | _, _ => false
+      let ids := (vs.filter storable).filterMap (fun v => str? v "gid")
+      let sorted := (ids.eraseDups).mergeSort (fun a b => a ≤ b)
+      let l := Json.arr (sorted.map Json.str).toArray
+      (st, Json.mkObj [("bulk", l), ("single", l)])
+    | _, _ => (st, Drv.bad "bulkidx: index/verts")
   | some "batch" =>
     match nat? j "k", str? j "graph", arr? j "xs" with
     | some k, some graph, some xs =>
